@@ -88,6 +88,8 @@ def snapshot(root: Path):
         f = root / p
         if kind == "symlink":
             snap[p] = ("l", os.readlink(f))
+        elif kind == "special":
+            snap[p] = ("s",)
         else:
             snap[p] = ("f", hashlib.sha1(f.read_bytes()).hexdigest())
     return snap
